@@ -91,7 +91,10 @@ def _entry(case, s, entry, tp, pp, mdl, mix=None, pv=None):
     if entry == "partial-pressures":
         return call(get_partial_pressures, t, mix, comp, mdl)
     if entry == "driving-force":
-        return call(pv.get_partial_fluxes_from_permeate_composition, first_component_permeance=build.permeance(0.01), second_component_permeance=build.permeance(0.02),
+        helper = getattr(pv, "get_partial_fluxes_from_permeate_composition", None)
+        if helper is None:
+            raise Discard("unobservable: the driving-force helper does not exist under its public name in this tree")
+        return call(helper, first_component_permeance=build.permeance(0.01), second_component_permeance=build.permeance(0.02),
                     permeate_composition=build.composition(0.5, "weight"), feed_composition=comp, feed_temperature=t,
                     permeate_temperature=tp, permeate_pressure=pp, calculation_type=mdl)
     if entry == "solver":
